@@ -254,6 +254,7 @@ func (c *closeRT) timedStop(what string, bound time.Duration, f func()) {
 		}
 	case <-time.After(bound + 60*time.Second):
 		w.addCheck(1)
+		w.dumpStacks() // where is it stuck: goes to the run's info["stacks"]
 		w.violate("C15", "stop-does-not-return", "%s had not returned after %v", what, bound+60*time.Second)
 	}
 }
